@@ -10,6 +10,7 @@ import (
 	"net/url"
 	"os"
 	"path/filepath"
+	"sync/atomic"
 	"testing"
 	"time"
 
@@ -432,18 +433,20 @@ func c14IndexHTTP(c *fw.Case) {
 	}
 }
 
-// cutWriter closes the connection after n bytes.
+// cutWriter closes the connection after n bytes. fired is set before the partial write: the peer is inside the
+// request whose answer is being cut (or the handshake), so it cannot see the flag earlier than the cut takes effect,
+// and it can never see the effect without the flag.
 type cutWriter struct {
 	w     io.WriteCloser
 	left  int
-	fired *bool
+	fired *atomic.Bool
 }
 
 func (cw *cutWriter) Write(p []byte) (int, error) {
 	if cw.left >= 0 && len(p) > cw.left {
+		cw.fired.Store(true)
 		n, _ := cw.w.Write(p[:cw.left])
 		cw.w.Close()
-		*cw.fired = true
 		cw.left = 0
 		return n, io.ErrClosedPipe
 	}
@@ -496,10 +499,10 @@ func c14Protocol(c *fw.Case) {
 	c.Note("protocol content=%v requests=%d fragment=%v cutAt=%d", content, nreq, frag, cutAt)
 	cr, sw := io.Pipe()
 	sr2, cw := io.Pipe()
-	fired := false
+	var firedFlag atomic.Bool
 	var serverW io.Writer = sw
 	if cutAt >= 0 {
-		serverW = &cutWriter{w: sw, left: cutAt, fired: &fired}
+		serverW = &cutWriter{w: sw, left: cutAt, fired: &firedFlag}
 	}
 	var clientR io.Reader = cr
 	if frag {
@@ -517,7 +520,7 @@ func c14Protocol(c *fw.Case) {
 	defer func() { cr.Close(); cw.Close(); sw.Close(); sr2.Close(); <-done }()
 	p := desync.NewProtocol(clientR, cw)
 	if _, err := p.Initialize(desync.CaProtocolPullChunks); err != nil {
-		if fired {
+		if firedFlag.Load() {
 			c.Fault("pipe-closed-mid-message")
 			c.Outcome("handshake-cut")
 			return
@@ -534,6 +537,7 @@ func c14Protocol(c *fw.Case) {
 			return
 		}
 		c.SubEval(1)
+		fired := firedFlag.Load()
 		if fired && !dead {
 			c.Fault("pipe-closed-mid-message")
 		}
